@@ -54,7 +54,12 @@ func StartTxIndex() *TxIndex {
 		}
 		fmt.Fprintf(w, `{"jsonrpc":"2.0","id":%s,"error":{"code":-32603,"message":"Internal error","data":"tx not found"}}`, req.ID)
 	})
-	go http.Serve(ln, mux)
+	// The ante handler builds a fresh RPC client (with its own transport) for every transaction and never closes
+	// it; with keep-alive every lookup would leave an idle connection behind on both sides, and a long run would
+	// exhaust the descriptors and hang. The stand-in therefore closes each connection after answering.
+	srv := &http.Server{Handler: mux}
+	srv.SetKeepAlivesEnabled(false)
+	go srv.Serve(ln)
 	sharedIndex = ix
 	return ix
 }
